@@ -48,6 +48,18 @@ class _Instance:
     def __repr__(self):
         return f"{self.__class__.__name__}(name={self.name} of={self.of})"
 
+    def __copy__(self) -> "_Instance":
+        """Instance copying.
+        Keeps the target, name, and connections - in a connections-dict of the copy's own -
+        while dropping per-instance state such as the references handed out and the parent Module."""
+        if isinstance(self, InstanceArray):
+            new = type(self)(of=self.of, n=self.n, name=self.name)
+        else:
+            new = type(self)(of=self.of, name=self.name)
+        for portname, conn in self.conns.items():
+            new.connect(portname, conn)
+        return new
+
     def __getattr__(self, key: str) -> Any:
         """Port access by getattr"""
         if not self.__getattribute__("_initialized") or key.startswith("_"):
